@@ -23,10 +23,12 @@ INVARIANT DerivedUnit
 INVARIANT NormalizedIsUnit
 INVARIANT SuppliedKept
 INVARIANT FunctionOfSource
+INVARIANT FacePosition
 INVARIANT Confluence
 PROPERTY Monotone
 PROPERTY NormalizeLengthsOnly
 PROPERTY AccessReturns
+PROPERTY ChunkKeeps
 CHECK_DEADLOCK FALSE
 """
 
@@ -52,7 +54,10 @@ CAP_CFG = "INIT Init\nNEXT Next\nCONSTANT Ks = {%s}\nINVARIANT Checked\nINVARIAN
 CAP_TLC = [1, 12, 57, 286, 573]  # evaluated by TLC itself (6 K^3 < 2^31)
 CAP_KS = [12, 57, 286, 573, 2865, 19099]  # atan(1/K) = 4.8, 1.0, 0.2, 0.1, 0.02, 0.003 degrees
 
-STATE_CLAUSES = ["LonInRange", "LatInRange", "SamePoint", "DerivedUnit", "NormalizedIsUnit", "Confluence"]
+STATE_CLAUSES = ["LonInRange", "LatInRange", "SamePoint", "DerivedUnit", "NormalizedIsUnit", "FacePosition", "Confluence"]
+N_ACTIONS = 18  # 15 getters, normalize, construct_face_centers, chunk
+DIALECT_MESHES = [8, 11, 20]  # Dialects.tla: cubed_sphere_2 (poles are nodes), rhombic_dodecahedron, cubed_sphere_4 (96 quads)
+DIALECT_ROUTES = ["scrip", "esmf", "mpas"]
 
 # catalogue meshes: the first group has nodes at both poles, on the antimeridian and on the prime
 # meridian (checked below with exact integer tests); the second has mixed face sizes and face
@@ -109,26 +114,69 @@ def pick_meshes(ctx, thorough, rng):
     return prim, mixed, feats
 
 
-def make_cases(tag, walks, nodes, meshes, feats, start=0):
+def make_cases(tag, walks, nodes, meshes, feats, start=0, chunk_first=lambda w, j: False):
     cases = []
     for w, (init, walk) in enumerate(walks):
         src = dict(nodes[init]["src"])
         for j, mesh in enumerate(meshes(w)):
             routes = X.routes_for(src, feats[mesh]["uniform"])
             route = routes[(w + j + start) % len(routes)]
+            pre = chunk_first(w, j)  # Grid.chunk() right after construction: the whole history runs on dask arrays
             cases.append(
                 {
                     "id": "%s%d.%d" % (tag, w, j),
                     "src": src,
                     "route": route,
                     "mesh": mesh,
-                    # supplied centres: the centroids, or (every other history) directions off the centroid
-                    "centres": "offset" if (w + j) % 2 and (src["face"] != "none" or src["edge"] != "none") else "centroid",
-                    "acts": [a for a, _ in walk],
-                    "path": [init] + [v for _, v in walk],
+                    "centres": "offset",  # supplied centres are directions inside the element, off its centroid
+                    "acts": (["chunk"] if pre else []) + [a for a, _ in walk],
+                    "path": ([init] if pre else []) + [init] + [v for _, v in walk],
                 }
             )
     return cases
+
+
+def dialect_cases(ctx, cover, nodes, thorough):
+    """Further provenance routes: SCRIP (supplies centres), ESMF (centerCoords), MPAS (radians in [0, 2 pi), x/y/z,
+    centres).  TLC (Dialects.tla) emits the stored tables of each source; harness/x_c01.py materialises them."""
+    from checks import c01
+
+    ms, dcs = c01.generate(ctx, DIALECT_MESHES, DIALECT_ROUTES)
+    keys = {}
+    for mi, m in ms.items():
+        key = ("dialects:" + m["id"], 0, 0)
+        X.register_mesh(key, m["nodes"], m["faces"])
+        keys[m["id"]] = key
+    by_src = {}
+    for init, walk in cover:
+        by_src.setdefault(tuple(sorted(nodes[init]["src"].items())), []).append((init, walk))
+    cases, seen = [], set()
+    for dc in dcs:
+        src = X.dialect_src(dc)
+        k = (dc["mesh"], dc["route"], tuple(sorted(src.items())))
+        if k in seen:
+            continue
+        seen.add(k)
+        ws = sorted(by_src.get(k[2], []), key=lambda iw: -len(iw[1]))
+        if not ws:
+            # quick covers the graph modulo the longitude convention: walk the twin source's histories
+            twin = dict(src, lonconv="pm180" if src["lonconv"] == "z360" else "z360")
+            ws = sorted(by_src.get(tuple(sorted(twin.items())), []), key=lambda iw: -len(iw[1]))
+            ws = [(None, w) for _, w in ws]
+        for n, (init, walk) in enumerate(ws[: (12 if thorough else 3)]):
+            cases.append(
+                {
+                    "id": "dia:%s:%d" % (dc["id"], n),
+                    "src": src,
+                    "route": "dialect",
+                    "dialect": {"route": dc["route"], "src": dc["src"], "d": dc["d"], "id": dc["id"]},
+                    "mesh": keys[dc["mesh"]],
+                    "centres": "offset",
+                    "acts": (["chunk"] if n % 3 == 1 else []) + [a for a, _ in walk],
+                    "path": None,
+                }
+            )
+    return cases, keys
 
 
 def corrupt(recs):
@@ -177,8 +225,8 @@ def run(ctx):
     if len(nodes) != ro.distinct:
         raise Machinery("dot graph has %d states, TLC reports %d" % (len(nodes), ro.distinct))
     n_edges = sum(len(v) for v in out.values())
-    if any(len(v) != 16 for v in out.values()):
-        raise Machinery("a state of the dumped graph does not have its 16 actions")
+    if any(len(v) != N_ACTIONS for v in out.values()):
+        raise Machinery("a state of the dumped graph does not have its %d actions" % N_ACTIONS)
     by_key = {X.state_key(s): u for u, s in nodes.items()}
     bad = {}
     for p in ro.prints:
@@ -198,7 +246,7 @@ def run(ctx):
         if isinstance(p, tuple) and len(p) == 3 and p[0] == "BAD":
             for c in p[2]:
                 before[c] += 1
-    for c in ("LonInRange", "LatInRange", "SamePoint", "DerivedUnit", "NormalizedIsUnit", "Confluence"):
+    for c in STATE_CLAUSES:
         if before[c] == 0:
             raise Machinery("TLC finds no state violating %s under MechBeforeFixes: the model cannot tell the difference" % c)
     ctx.note("before_fixes_model", {"states": rb.distinct, "failing_states_per_clause": before})
@@ -215,7 +263,12 @@ def run(ctx):
             cex[k] = (init, walk)
     cex_keys = sorted(cex, key=lambda k: (X.state_key(nodes[k[0]]), sorted(k[1])))
     cex_walks = [cex[k] for k in cex_keys]
-    cover = X.cover_walks(nodes, out, inits, max_len=90)
+    cls = None if thorough else X.state_class  # quick: every (state, action) pair modulo the longitude convention
+    cover = X.cover_walks(nodes, out, inits, max_len=90, cls=cls)
+    dia, dkeys = dialect_cases(ctx, cover, nodes, thorough)
+    big = dkeys["cubed_sphere_4"]  # 96 quads / 192 edges: also a mesh of the standard routes
+    feats[big] = X.mesh_features(*big)
+    mixed = mixed + [big]
     allm = prim + mixed
     if thorough:
         mesh_of = lambda w: [prim[w % len(prim)], prim[(w * 7 + 3) % len(prim)], mixed[w % len(mixed)], allm[(w * 5 + 1) % len(allm)]]
@@ -223,7 +276,8 @@ def run(ctx):
         mesh_of = lambda w: [allm[w % len(allm)]]
     cases = make_cases("cex", cex_walks, nodes, lambda w: [prim[w % len(prim)]], feats)
     n_cex = len(cases)
-    cases += make_cases("cov", cover, nodes, mesh_of, feats)
+    cases += make_cases("cov", cover, nodes, mesh_of, feats, chunk_first=(lambda w, j: j == 1) if thorough else (lambda w, j: w % 3 == 1))
+    cases += dia
     if thorough:
         rw = []
         for s in sorted(inits, key=lambda u: X.state_key(nodes[u])):
@@ -234,7 +288,7 @@ def run(ctx):
     # 4. replay on real grids, record after every call
     # compile the (non-parallel) numba kernels once in the parent so that the forked workers inherit them
     for c in cases[:3]:
-        X.replay(dict(c, acts=list(X.VARS) + ["normalize"]))
+        X.replay(dict(c, acts=list(X.VARS) + ["normalize", "recentre", "chunk"] + list(X.VARS)))
     nproc = int(os.environ.get("VERIF_NPROC", "0")) or min(8, os.cpu_count() or 4)
     recs = pmap(X.replay, cases, nproc=nproc)
     by_id = {c["id"]: c for c in cases}
@@ -249,7 +303,7 @@ def run(ctx):
     corrupted = corrupt(recs)
     with open(path, "w") as fh:
         for r in recs + [c[0] for c in corrupted]:
-            fh.write(json.dumps({k: r[k] for k in ("id", "src", "init", "steps")}) + "\n")
+            fh.write(json.dumps({k: r[k] for k in ("id", "src", "init", "fpos0", "steps")}) + "\n")
     rj = ctx.tlc_ok("TraceCoord", JUDGE_CFG, what="validate %d recorded histories step by step" % len(recs), env={"REC_FILE": path}, workers=8, count=False, timeout=3000)
     os.remove(path)
     verdicts, drift, seen = {}, {}, set()
@@ -276,11 +330,17 @@ def run(ctx):
         c = by_id[r["id"]]
         for k, a in enumerate(c["acts"]):
             steps += 1
+            if c["path"] is None:
+                ctx.count(1, (r["id"], k))
+                continue
             changing = c["path"][k] != c["path"][k + 1]
             ctx.count(1, (c["path"][k], a, tuple(c["mesh"])) if changing else None)
-    covered = {(c["path"][k], a) for c in cases for k, a in enumerate(c["acts"])}
-    if len(covered) != n_edges:
-        raise Machinery("transition cover incomplete: %d of %d" % (len(covered), n_edges))
+    cl = (lambda u: X.state_class(nodes[u])) if cls else (lambda u: u)
+    covered = {(cl(c["path"][k]), a) for c in cases if c["path"] is not None for k, a in enumerate(c["acts"])}
+    wanted = {(cl(u), a) for u in nodes for a, _ in out[u]}
+    if covered != wanted:
+        raise Machinery("transition cover incomplete: %d of %d" % (len(covered & wanted), len(wanted)))
+    n_pairs = len(wanted)
     reproduced = 0
     not_reproduced = []
     for c, key in zip(cases[:n_cex], cex_keys):
@@ -318,7 +378,8 @@ def run(ctx):
     ctx.note("histories", {"counterexamples": n_cex, "cover_walks": len(cover), "total": len(cases), "steps": steps})
     ctx.note("counterexamples_reproduced", "%d/%d" % (reproduced, n_cex))
     ctx.note("model_drift_histories", len(drift))
-    ctx.note("transition_cover", "%d/%d (state, action) pairs of the MechObserved graph" % (len(covered), n_edges))
+    ctx.note("transition_cover", "%d/%d (state, action) pairs of the MechObserved graph%s" % (len(covered), n_pairs, " modulo the longitude convention of the source" if cls else ""))
+    ctx.note("dialect_histories", len(dia))
     ctx.note("meshes", [list(k) for k in allm])
     ctx.exhaustive = True
     ctx.rule = (
